@@ -120,10 +120,10 @@ RULE_STATIC = (
     'complete (211 calls per name) + 60 x scale seeded tuples each of arity 3 and 4; thorough = arities 0..4 COMPLETE, '
     'N*(1+14+14^2+14^3+14^4) calls, + 3000 more arity-4 tuples per modelled name for the model; arguments outside the pool are '
     'not part of this stream; a callFunction listener counts the dispatches: a fn shard with fewer dispatches than calls is a '
-    'harness error; fn-edge (a strings case per name) = every name on numeric edges written as literals: 22 numbers (+-0.5, '
-    '+-10^-9, 0, -0, +-1, +-1.5, 2, 36, 37, +-255, +-10^15, +-10^300, 2^53, 0.1, -2.5) alone and in all 22^2 pairs, 7 numeric '
+    'harness error; fn-edge (a strings case per name) = every name on numeric edges written as literals: 25 numbers (incl. 2^53+1 and its negative; +-0.5, '
+    '+-10^-9, 0, -0, +-1, +-1.5, 2, 36, 37, +-255, +-10^15, +-10^300, 2^53, +-(2^53+1), 0.1, 0.25, -2.5) alone and in all 25^2 pairs, 7 numeric '
     'texts at the edges of float() ("1e400", "nan", "inf", "1e-400", REPT("9",400), ...) alone and paired both ways with 6 '
-    'small numbers, 40 (600) x scale seeded triples over 13 of the numbers: 637 (1197) calls per name; fn-pattern = one case '
+    'small numbers, 40 (600) x scale seeded triples over 13 of the numbers: 775 (1335) calls per name; fn-pattern = one case '
     'of 242 calls: 11 wildcard patterns whose literal tail occurs in neither text (6..24 groups "*-" or "*a", 14 x "?*", 30 x '
     '"*", also behind the criteria prefixes <> and =) x 2 texts (48 words joined by "-"; 40 x "a") x COUNTIF, SUMIF, '
     'AVERAGEIF, their ...IFS forms, MAXIFS and MATCH over {text,text,1}, SEARCH, FIND, SUBSTITUTE on the text; (d) host = a '
@@ -1568,7 +1568,7 @@ def cases(rng, ctx):
     # huge magnitudes, radix and table bounds (the loops of function bodies are bounded by argument validation: this is
     # where a guard that truncates, floors or compares on the wrong side of zero stops guarding)
     edges = ['-0.5', '0.5', '-0.000000001', '0.000000001', '0', '-0', '1', '-1', '1.5', '-1.5', '2', '36', '37', '255', '-255',
-             '10^15', '-10^15', '1*10^300', '-1*10^300', '2^53', '0.1', '-2.5']
+             '10^15', '-10^15', '1*10^300', '-1*10^300', '2^53', '0.1', '-2.5', '2^53+1', '-(2^53+1)', '0.25']
     for name in names:
         items = ['%s(%s)' % (name, a) for a in edges]
         items += ['%s(%s,%s)' % (name, a, b) for a in edges for b in edges]
